@@ -343,6 +343,7 @@ class Interp:
         self.widened = False
         self.grouped = False
         self.loop_depth = 0
+        self.inline_depth = 0
         self.renames: dict[str, str] = {}
         self._new_funcs: set[str] = prg.new_functions()
         for local, dotted in func.module.imports.items():
@@ -634,6 +635,8 @@ class Interp:
         states = [st]
         if node.value is not None:
             states = self.touch(node.value, st)
+        if getattr(node, "ngosa_inline", False) and self.inline_depth > 0:
+            return Flow(iret=[(node, s) for s in states])  # leaves the inlined helper, not the function
         for s in states:
             self.returns.append((node, s))
         return Flow()
@@ -814,6 +817,7 @@ class Interp:
                 sub = self.block(node.body, body_in)
                 flow.ret.extend(sub.ret)
                 flow.exc.extend(sub.exc)
+                flow.iret.extend(sub.iret)
                 brk.extend(sub.brk)
                 work = self._dedup(sub.fall + sub.cont)
                 self.loop_back.setdefault(id(node), []).extend(work)
@@ -853,6 +857,27 @@ class Interp:
         return self._loop(node, st)
 
     def s_With(self, node: ast.With, st: State) -> "Flow":
+        if getattr(node, "ngosa_inline", None):
+            # the body of a helper copied to its call site (inliner.py): `return E` inside binds the target and falls out
+            self.inline_depth += 1
+            sub = self.block(node.body, [st])
+            self.inline_depth -= 1
+            flow = Flow()
+            flow.brk, flow.cont, flow.exc = sub.brk, sub.cont, sub.exc
+            target = node.items[0].optional_vars
+            out: list[State] = []
+            for ret, s in sub.iret:
+                s = s.copy()
+                if target is not None:
+                    self._assign(target, self.expand(ret.value, s) if ret.value is not None else ast.Constant(None), s)
+                out.append(s)
+            for s in sub.fall:
+                s = s.copy()
+                if target is not None:
+                    self._assign(target, ast.Constant(None), s)
+                out.append(s)
+            flow.fall = self._dedup(out)
+            return flow
         states = [st]
         for item in node.items:
             nxt = []
@@ -1483,12 +1508,14 @@ class Flow:
     cont: list[State] = field(default_factory=list)
     ret: list[State] = field(default_factory=list)
     exc: list[State] = field(default_factory=list)
+    iret: list[tuple[ast.Return, State]] = field(default_factory=list)  # returns of an inlined helper (see s_With)
 
     def absorb(self, other: "Flow") -> None:
         self.brk.extend(other.brk)
         self.cont.extend(other.cont)
         self.ret.extend(other.ret)
         self.exc.extend(other.exc)
+        self.iret.extend(other.iret)
 
 
 class SummaryTable:
